@@ -243,6 +243,12 @@ func (m *UDPMuxDefault) RemoveConnByUfrag(ufrag string) {
 		return
 	}
 
+	// Stop the connections first: a stopped connection can no longer (re)register
+	// addresses, so nothing it owns survives the cleanup below.
+	for _, c := range removedConns {
+		_ = c.Close()
+	}
+
 	verifhook.Yield("udpmux.RemoveConnByUfrag.betweenLocks")
 	m.addressMapMu.Lock()
 	defer m.addressMapMu.Unlock()
@@ -250,7 +256,9 @@ func (m *UDPMuxDefault) RemoveConnByUfrag(ufrag string) {
 	for _, c := range removedConns {
 		addresses := c.getAddresses()
 		for _, addr := range addresses {
-			delete(m.addressMap, addr)
+			if m.addressMap[addr] == c {
+				delete(m.addressMap, addr)
+			}
 		}
 	}
 }
@@ -536,6 +544,11 @@ func (m *UDPMuxDefault) registerConnForAddress(conn *udpMuxedConn, addr netip.Ad
 	verifhook.Yield("udpmux.registerConnForAddress.beforeLock")
 	m.addressMapMu.Lock()
 	defer m.addressMapMu.Unlock()
+
+	if conn.isClosed() {
+		// A removed or closed connection must not take an address (back).
+		return
+	}
 
 	existing, ok := m.addressMap[addr]
 	if ok {
